@@ -383,6 +383,7 @@ func (fr *Frame) execStmt(st *State, s ast.Stmt) (res []Outcome) {
 	case *ast.IncDecStmt:
 		l := fr.evalLoc(st, s.X)
 		v := e.load(st, l)
+		fr.assumeTypeFacts(st, v, fr.info.TypeOf(s.X))
 		var nv *Term
 		if s.Tok == token.INC {
 			nv = Add(v, IntLit(1))
@@ -465,18 +466,82 @@ func (fr *Frame) execStmt(st *State, s ast.Stmt) (res []Outcome) {
 		e.dropped["go "+exprString(s.Call.Fun)+"(...) [spawn: verified separately]"] = true
 		return normal(st)
 	case *ast.SendStmt:
-		fr.eval(st, s.Value)
-		if len(st.locks) > 0 {
-			e.oblige(fr, st, "block-under-lock", "", fr.site("block", s), False, s, nil, "channel send while holding a lock")
-		}
+		fr.execSend(st, s)
 		return normal(st)
 	case *ast.SelectStmt:
-		fr.unsupported(s, "select statement")
+		// any communication clause may be the one that proceeds (blocking/readiness is not modelled):
+		// every clause is executed from the current state; a received value is arbitrary
+		var out []Outcome
+		for _, cc0 := range s.Body.List {
+			cc := cc0.(*ast.CommClause)
+			b := st.Clone()
+			b.Branch(Fresh("select", BoolSort))
+			switch c := cc.Comm.(type) {
+			case nil:
+			case *ast.SendStmt:
+				fr.execSend(b, c)
+			case *ast.ExprStmt:
+				fr.evalIgnore(b, c.X)
+			case *ast.AssignStmt:
+				outs := fr.execStmt(b, c)
+				if len(outs) != 1 || outs[0].kind != oNormal {
+					fr.unsupported(s, "select receive clause")
+				}
+				b = outs[0].st
+			default:
+				fr.unsupported(s, "select clause %T", cc.Comm)
+			}
+			for _, o := range fr.execBlock(b, cc.Body) {
+				if o.kind == oBreak && o.label == "" {
+					o = Outcome{oNormal, "", o.st}
+				}
+				out = append(out, o)
+			}
+		}
+		return fr.mergeNormals(out)
 	case *ast.TypeSwitchStmt:
 		return fr.execTypeSwitch(st, s)
 	}
 	fr.unsupported(s, "statement %T", s)
 	return nil
+}
+
+// execSend: `ch <- v`. Under `option chanlog` of the function under contract the send is appended to the
+// ghost log (chanSendN, chanSendCh[k] = channel, chanSendVal[k] = value when it is a reference or integer).
+func (fr *Frame) execSend(st *State, s *ast.SendStmt) {
+	e := fr.e
+	v := fr.eval(st, s.Value)
+	if len(st.locks) > 0 {
+		e.oblige(fr, st, "block-under-lock", "", fr.site("block", s), False, s, nil, "channel send while holding a lock")
+	}
+	if fr.top.fc != nil && fr.fn == fr.top.fn {
+		// `callpre send(ch, v): expr` constrains the channel sends written in the function under contract
+		for i, c := range fr.top.fc.CallPre["send"] {
+			if len(c.Params) != 2 {
+				continue
+			}
+			ch := fr.eval(st, s.Chan)
+			b := map[string]*SVal{c.Params[0]: {T: ch, Ty: fr.info.TypeOf(s.Chan)}, c.Params[1]: {T: v, Ty: fr.info.TypeOf(s.Value)}}
+			g := fr.top.evalSpecBool(st, c.Expr, b, fr.top.entry)
+			name := c.Name
+			if name == "" {
+				name = fmt.Sprintf("%d", i+1)
+			}
+			e.oblige(fr, st, "callpre:send#"+name, "", fr.site("callpre", s), g, s, c, "")
+			st.Assume(g)
+		}
+	}
+	if fr.top.fc != nil && fr.top.fc.Options["chanlog"] != "" {
+		ch := fr.eval(st, s.Chan)
+		n := e.Heap(st, "ghost:chanSendN", IntSort)
+		chs := e.Heap(st, "ghost:chanSendCh", ArrSort(IntSort, IntSort))
+		st.heap["ghost:chanSendCh"] = Store(chs, n, ch)
+		if v.S == IntSort {
+			vals := e.Heap(st, "ghost:chanSendVal", ArrSort(IntSort, IntSort))
+			st.heap["ghost:chanSendVal"] = Store(vals, n, v)
+		}
+		st.heap["ghost:chanSendN"] = Add(n, IntLit(1))
+	}
 }
 
 func (fr *Frame) mergeNormals(out []Outcome) []Outcome {
